@@ -465,6 +465,13 @@ impl Ctx {
         }
     }
 
+    /// Survey mode (development aid) for checks with their own search loop.
+    pub fn survey_record(&self, f: &Failure) {
+        let mut g = self.inner.lock().unwrap();
+        let e = g.survey.entry(f.sig.clone()).or_insert((0, f.detail.clone()));
+        e.0 += 1;
+    }
+
     /// Witness of a listed finding still fails.
     pub fn known_line(&self, fd: &Finding) {
         let mut g = self.inner.lock().unwrap();
